@@ -250,6 +250,7 @@ func (fr *Frame) execInstr(ins ssa.Instruction) {
 		if loc.Kind == "obj" {
 			fr.vals[ins] = loc.Base
 		}
+		fr.guardedAccess(ins, st, base)
 	case *ssa.Field:
 		x := fr.val(ins.X)
 		si := te.StructInfo(ins.X.Type())
@@ -556,8 +557,12 @@ func (fr *Frame) execUnOp(ins *ssa.UnOp) {
 		v := te.Load(fr.cur, loc)
 		fr.setVal(ins, v)
 		fr.assumeTyped(ins.Type(), fr.vals[ins])
-		if isPointerLike(ins.Type()) {
-			// values loaded from the heap: pointer fields are assumed non-nil unless checked (listed assumption)
+		if mt := derefType(ins.Type()); mt != nil {
+			if n, ok := types.Unalias(mt).(*types.Named); ok && (qualName(n) == "sync.Mutex" || qualName(n) == "sync.RWMutex") {
+				// mutex pointers held in fields point to separately allocated mutexes, not into other objects
+				te.pre.Add("fn:subtag", "(declare-fun subtag (Int) Int)")
+				fr.vc.assume(Term{fmt.Sprintf("(= (subtag %s) 0)", fr.vals[ins].S), SBool})
+			}
 		}
 	case token.NOT:
 		fr.vals[ins] = tNot(fr.val(ins.X))
